@@ -6,7 +6,7 @@
    soundness theorems over the plain tree [mroot] are not yet proved (stated below as the
    checked, bounded obligations they currently are). *)
 From Coq Require Import List NArith.
-From Sia Require Import Prim.Tok Merkle.Tree Merkle.Forest Merkle.Rhp Merkle.RhpProofs Merkle.RhpRoot Merkle.RgComplete Merkle.RgSound Merkle.RgSound2 Merkle.RgAppend.
+From Sia Require Import Prim.Tok Merkle.Tree Merkle.Forest Merkle.Rhp Merkle.RhpProofs Merkle.RhpRoot Merkle.RgComplete Merkle.RgSound Merkle.RgSound2 Merkle.RgAppend Merkle.RgGap Merkle.RgMulti.
 Import ListNotations.
 
 Theorem C16_accumulator_is_forest : forall H L ds xs, Repr hash (node H) L ds ->
@@ -129,3 +129,57 @@ Theorem C16_append_v2_sound : forall H (ls proof : list hash) (x newRoot : hash)
   newRoot = mroot H (ls ++ [x]) \/ RgSound.NodeCollision H.
 Proof. exact append_v2_sound. Qed.
 Print Assumptions C16_append_v2_sound.
+
+(* ---- diff / free-sector proofs: the old-root half ---- *)
+(* the greedy decomposition of a gap [i, j), j < 2^64, takes at most 128 steps: the potential phi drops at every step, so
+   the model's fuel (200) never decides anything *)
+Theorem C16_gap_potential_decreases : forall i j, (i < j)%N -> (j < 2 ^ 64)%N -> (i + next_subtree_size i j < j)%N ->
+  (phi (i + next_subtree_size i j) j < phi i j)%N.
+Proof. exact phi_step. Qed.
+Print Assumptions C16_gap_potential_decreases.
+Theorem C16_gap_potential_bound : forall i j, (j < 2 ^ 64)%N -> (phi i j <= 128)%N.
+Proof. exact phi_bound. Qed.
+Print Assumptions C16_gap_potential_bound.
+
+(* sectorsChanged yields strictly increasing indices below the count *)
+Theorem C16_sectors_changed_increasing : forall acts n, incr 0 (sectors_changed acts n) n.
+Proof. exact (sectors_changed_incr (fun b => b)). Qed.
+Print Assumptions C16_sectors_changed_increasing.
+
+(* the multi-range verifier of VerifyDiffProof: the builder's gap hashes and the true leaves at any increasing index list
+   are accepted against the plain root, for every list of fewer than 2^64 roots *)
+Theorem C16_multi_complete : forall H (ls : list hash) idx, (N.of_nat (length ls) < 2 ^ 64)%N -> incr 0 idx (N.of_nat (length ls)) ->
+  verify_multi H idx (build_gaps H FUEL ls 0 idx) (leaves_at ls idx) (N.of_nat (length ls)) (mroot H ls) = Some true.
+Proof. exact multi_complete. Qed.
+Print Assumptions C16_multi_complete.
+
+(* ... and whatever it accepts against the plain root, with the count held true and any number of tree hashes offered, is
+   the true leaves at the indices and exactly the builder's gap hashes, or a node collision is exhibited. This rests on the
+   verifier marking a range that runs out of tree hashes (repaired defect 7283819); on the unmarked loop the statement is
+   false, see the next example *)
+Theorem C16_multi_sound : forall H (ls : list hash) idx th lh, (N.of_nat (length ls) < 2 ^ 64)%N -> incr 0 idx (N.of_nat (length ls)) ->
+  length lh = length idx ->
+  verify_multi H idx th lh (N.of_nat (length ls)) (mroot H ls) = Some true ->
+  (lh = leaves_at ls idx /\ th = build_gaps H FUEL ls 0 idx) \/ RgSound.NodeCollision H.
+Proof. exact multi_sound. Qed.
+Print Assumptions C16_multi_sound.
+
+Example C16_unmarked_loop_refuted : let Hid := fun b : bytes => b in
+  let ls := [[1]; [2]; [3]; [4]]%N in
+  exists th lh acc, multi_ns Hid FUEL [] th 0 [3%N] lh 4 = Some (acc, []) /\ pa_root Hid acc = mroot Hid ls /\ lh <> leaves_at ls [3%N] /\ length lh = 1%nat.
+Proof. exact unmarked_loop_refuted. Qed.
+
+(* VerifyDiffProof / VerifyFreeSectorsProof, first half: BuildDiffProof's hashes pass the old-root verification, and an
+   accepted diff proof carries the true roots of the changed sectors and the builder's tree hashes (or a collision) *)
+Theorem C16_diff_old_complete : forall H (acts : list action) (ls : list hash), (N.of_nat (length ls) < 2 ^ 64)%N ->
+  verify_multi H (sectors_changed acts (N.of_nat (length ls))) (fst (build_diff_proof H acts ls)) (snd (build_diff_proof H acts ls))
+    (N.of_nat (length ls)) (mroot H ls) = Some true.
+Proof. exact diff_old_complete. Qed.
+Print Assumptions C16_diff_old_complete.
+
+Theorem C16_diff_old_sound : forall H (acts : list action) (ls th lh : list hash) (newRoot : hash) (appendRoots : list hash),
+  (N.of_nat (length ls) < 2 ^ 64)%N ->
+  verify_diff_proof H acts (N.of_nat (length ls)) th lh (mroot H ls) newRoot appendRoots = Some true ->
+  (lh = snd (build_diff_proof H acts ls) /\ th = fst (build_diff_proof H acts ls)) \/ RgSound.NodeCollision H.
+Proof. exact diff_old_sound. Qed.
+Print Assumptions C16_diff_old_sound.
